@@ -148,6 +148,11 @@ func (s *Server) proxyHTTPRoute(c *gin.Context) {
 	}
 
 	s.httpProxy.ServeHTTP(c.Writer, c.Request, endpointID)
+
+	// As this is the 'no route' handler, unless the response header has been
+	// written gin considers the request unhandled, so replaces an upstream
+	// 404 response that has no body with its own content type and body.
+	c.Writer.WriteHeaderNow()
 }
 
 func (s *Server) proxyTCPRoute(c *gin.Context) {
